@@ -2143,3 +2143,126 @@ func (c *Ctx) identifierRule(rule string) {
 	r.Check(rule, FnKey(fn)+":identifier", c.Pos(fn.Pos()), len(tr) > 0 && tr.Implies(isIdent), "a name is accepted without token.IsIdentifier: keywords pass (`:recv type` fails much later with a misleading position) or legal names are rejected; true-condition: "+tr.Describe(c.O))
 	r.Check(rule, FnKey(fn)+":not-blank", c.Pos(fn.Pos()), len(tr) > 0 && tr.Implies(notBlank), "the blank identifier is accepted as a receiver name")
 }
+
+// Rules that report defects of the current tree which were found by the hunt and NOT repaired (they need more than a
+// small patch). Each reports one named construct; known_findings.json lists them, so the checks print KNOWN-FINDING
+// and pass; a different violation of the same rule is still an alarm.
+
+// atomicWriteRule (C15): a failed write must leave the previous output intact.
+func (c *Ctx) atomicWriteRule(rule string) {
+	r := c.R
+	r.Rule(rule, "the output is replaced atomically: the bytes go to a temporary file in the output directory that is renamed onto the output path (os.WriteFile truncates the destination first: a write that fails half-way – disk full, file size limit – ends the run with an error and the previous output destroyed)")
+	n := 0
+	for _, s := range c.CallsTo("os.WriteFile") {
+		n++
+		arg := c.O.Of(s.Args()[0])
+		// direct write to the designated path (a parameter / Config.Output) instead of a temporary name
+		direct := arg.Kind == "param" || arg.IsField("config.Config.Output")
+		r.Check(rule, FnKey(s.Fn)+":non-atomic-write", c.Pos(s.Pos()), !direct, "os.WriteFile writes straight to the output path "+arg.String()+": a failing write leaves a truncated file where the previous output was")
+	}
+	r.Note(rule+"_WriteFile_sites", n)
+}
+
+// nestedArgsRule (C06): the member-wise descent keeps the additional arguments.
+func (c *Ctx) nestedArgsRule(rule string) {
+	r := c.R
+	r.Rule(rule, "member-wise descent: the nested struct copy started by the candidate handler passes the method's additional arguments on (with nil, `:map $2 In.W` on a nested destination field is reported `no match` and `$1.X` is resolved against the nested source instead of the first operand)")
+	n := 0
+	for _, dm := range c.defaultMatchers() {
+		for _, af := range dm.AnonFuncs {
+			for _, s := range c.CallsIn(af, "(*"+pBld+"assignmentBuilder).structToStruct", false) {
+				n++
+				a := c.O.Of(s.Args()[3])
+				r.Check(rule, FnKey(af)+":nested-copy-args", c.Pos(s.Pos()), !a.Is("const", "nil"), "the nested copy is started with nil additional arguments")
+			}
+		}
+	}
+	r.Floor(rule, "nested struct copies started by candidate handlers", n, 1)
+}
+
+// pointerDescentRule (C06): notations below a struct held by pointer.
+func (c *Ctx) pointerDescentRule(rule string) {
+	r := c.R
+	r.Rule(rule, "descent through pointers: the test that decides member-wise descent and the look-ahead for nested notations look through a pointer to the struct (IsStructType(DerefPtr(T))); with IsStructType(T) a field `Addr *Address` is never descended into, `dst.Addr = src.Addr` is emitted and every notation below it (:skip Addr.Secret, :map … Addr.Zip) is silently ignored")
+	n := 0
+	for _, dm := range c.defaultMatchers() {
+		for _, af := range dm.AnonFuncs {
+			for _, s := range c.CallsIn(af, fnIsStruct, false) {
+				a := c.O.Of(s.Args()[0])
+				if !a.IsCallTo(invExprType) && !(a.Kind == "invoke" && a.Name == invExprType) {
+					if !(a.IsCallTo(fnDerefPtr)) {
+						continue
+					}
+				}
+				n++
+				if n > 1 {
+					continue // one finding per handler: the first test stands for all
+				}
+				r.Check(rule, FnKey(af)+":descent-sees-through-pointers", c.Pos(s.Pos()), a.IsCallTo(fnDerefPtr), "member-wise descent is decided on "+a.String()+" without DerefPtr")
+			}
+		}
+	}
+	r.Floor(rule, "struct tests in candidate handlers", n, 1)
+}
+
+// addressOfRule (C01): & only in front of addressable operands.
+func (c *Ctx) addressOfRule(rule string) {
+	r := c.R
+	r.Rule(rule, "ConverterNode.AssignExpr puts `&` in front of its argument only when the argument is addressable (a variable or a field selection): a getter result, a conversion or a String() call cannot have its address taken (`f(&src.Price())`, `f(&int64(src.N))` do not compile)")
+	fn := c.P.LookupMethod("/pkg/builder/model", "ConverterNode", "AssignExpr")
+	if fn == nil {
+		r.Undecided(rule, "anchor", "ConverterNode.AssignExpr not found")
+		return
+	}
+	// the "&" is chosen under IsPtr tests only: no test of the argument node's kind anywhere in the method
+	amp := false
+	kindTested := false
+	for _, b := range fn.Blocks {
+		for _, in := range b.Instrs {
+			switch x := in.(type) {
+			case *ssa.Phi:
+				for _, e := range x.Edges {
+					if k, ok := e.(*ssa.Const); ok && k.Value != nil && k.Value.ExactString() == `"&"` {
+						amp = true
+					}
+				}
+			case *ssa.Store:
+				if k, ok := x.Val.(*ssa.Const); ok && k.Value != nil && k.Value.ExactString() == `"&"` {
+					amp = true
+				}
+			case *ssa.TypeAssert:
+				if strings.Contains(x.AssertedType.String(), "model.") {
+					kindTested = true // the argument node's concrete kind is examined
+				}
+			case ssa.CallInstruction:
+				if strings.Contains(core.CalleeName(x.Common()), "ddressable") {
+					kindTested = true
+				}
+			}
+		}
+	}
+	r.Check(rule, FnKey(fn)+":address-of-addressable-only", c.Pos(fn.Pos()), !amp || kindTested, "`&` is chosen from the pointer-ness of the types alone, whatever kind of expression the argument is")
+}
+
+// foreignTypeRule (C01): a type of a package the setup file does not import is not rendered as if it were local.
+func (c *Ctx) foreignTypeRule(rule string) {
+	r := c.R
+	r.Rule(rule, "ImportNames.TypeName renders a named type without qualifier only if it belongs to the setup file's own package (or is predeclared / dot-imported): a type of a package the setup file does not import (time.Time reached through a field of an imported struct) is rendered as `Time` and the output does not compile")
+	fn := c.MustMethod(rule, "/pkg/util", "ImportNames", "TypeName")
+	if fn == nil {
+		return
+	}
+	// the table maps import paths to names only: it cannot tell "own package" from "not imported"
+	ownKnown := false
+	for _, b := range fn.Blocks {
+		for _, in := range b.Instrs {
+			if bo, ok := in.(*ssa.BinOp); ok {
+				x, y := c.O.Of(bo.X), c.O.Of(bo.Y)
+				if (x.IsCallTo("(*go/types.Package).Path") || y.IsCallTo("(*go/types.Package).Path")) && (x.Kind == "field" || y.Kind == "field" || x.Kind == "param" || y.Kind == "param") {
+					ownKnown = true
+				}
+			}
+		}
+	}
+	r.Check(rule, FnKey(fn)+":own-package-known", c.Pos(fn.Pos()), ownKnown, "TypeName has no notion of the setup file's own package: `not in the import table` is taken for `local`")
+}
